@@ -248,6 +248,8 @@ def _replay_ob(h, ob, c):
         return {'reproduced': False, 'why': 'model violates an assumption natively (float rounding?): %s' % e}
     except Unmodelled as e:
         return {'reproduced': False, 'why': 'replay not possible: %s' % e}
+    except Abort:
+        return {'reproduced': False, 'why': 'replay path aborted'}
     except Exception as e:
         if ob.clause == 'no-unexpected-exception' and type(e).__name__ == ob.meta.get('exc'):
             return {'reproduced': True, 'observed': 'raises %s: %s' % (type(e).__name__, str(e)[:200]), 'inputs': _jsonable(dict(vals))}
